@@ -85,7 +85,7 @@ func fieldVals(rr dns.RR, steps []textStep) (string, bool) {
 		switch s.Kind {
 		case "uint", "uintalg", "uintttl", "hexgroups", "euitok", "nodeid":
 			out = append(out, fmt.Sprintf("n:%d", fv.Uint()))
-		case "name", "endstr", "tok", "octet", "tokstr":
+		case "name", "endstr", "tok", "octet", "tokstr", "salt":
 			out = append(out, "s:"+hexOrDash([]byte(fv.String())))
 		case "txt":
 			var parts []string
